@@ -103,9 +103,13 @@ SUM_RE = re.compile(r'^<<"SUMMARY", "(.*)", "events", (\d+)>>')
 DEF_RE = re.compile(r'^<<"DEF", "(.*)">>$')
 
 
-def run_tlc_trace(spec, shard_path, nevents, workdir, tag, timeout=3000, want_defs=False):
+def run_tlc_trace(spec, shard_path, nevents, workdir, tag, timeout=3000, want_defs=False, f32=False):
     meta = os.path.join(workdir, "meta_" + tag)
     env = dict(os.environ, TRACE=shard_path, JAVA_TOOL_OPTIONS=JAVA_OPTS)
+    if f32:
+        env["VERIF_LIM"] = "4194303"
+    else:
+        env.pop("VERIF_LIM", None)
     cmd = ["tlc", "-workers", "1", "-metadir", meta, "-cleanup", "-noGenerateSpecTE",
            "-config", os.path.join(SPEC, spec + ".cfg"), os.path.join(SPEC, spec + ".tla")]
     try:
@@ -142,14 +146,32 @@ def run_tlc_trace(spec, shard_path, nevents, workdir, tag, timeout=3000, want_de
     m = re.search(r"(\d+) states generated, (\d+) distinct states found", out)
     summary["tlc_states"] = int(m.group(2)) if m else 0
     summary["tlc_transitions"] = int(m.group(1)) if m else 0
+    if spec == "TraceReal":
+        # values of the real domain: evaluate the terms TLC printed (lib/realdom.py)
+        import realdom
+        evs = {}
+        with open(shard_path) as f:
+            for ln in f:
+                e = json.loads(ln)
+                evs[(e["case"], e["i"])] = e
+        skipped = {x["case"] for x in mism} | {x["case"] for x in unspec}
+        rm, rstats = realdom.judge(out.splitlines(), evs, f32=f32)
+        first = {}
+        for x in rm:
+            if x["case"] not in skipped and x["case"] not in first:
+                first[x["case"]] = x
+        mism += list(first.values())
+        summary["bad"] = summary.get("bad", 0) + len(first)
+        summary.update({k: v for k, v in rstats.items() if k != "real_worst_ulps"})
+        summary["real_worst_ulps_x1000"] = int(rstats["real_worst_ulps"] * 1000)
     return {"mismatches": mism, "unspec": unspec, "summary": summary, "defs": defs}
 
 
-def validate(spec, ev_path, workdir, nshards=12, want_defs=False):
+def validate(spec, ev_path, workdir, nshards=12, want_defs=False, f32=False):
     shards = shard_events(ev_path, nshards, workdir)
     t0 = time.time()
     with ThreadPoolExecutor(max_workers=len(shards)) as ex:
-        futs = [ex.submit(run_tlc_trace, spec, p, n, workdir, "%s_%d" % (spec, k), 3000, want_defs)
+        futs = [ex.submit(run_tlc_trace, spec, p, n, workdir, "%s_%d" % (spec, k), 3000, want_defs, f32)
                 for k, (p, n) in enumerate(shards)]
         results = [f.result() for f in futs]
     tot = {}
@@ -159,7 +181,7 @@ def validate(spec, ev_path, workdir, nshards=12, want_defs=False):
         unspec += r["unspec"]
         defs += r["defs"]
         for k, v in r["summary"].items():
-            tot[k] = tot.get(k, 0) + v
+            tot[k] = max(tot.get(k, 0), v) if k.startswith("real_worst") else tot.get(k, 0) + v
     log("[tlc] %s: %d events in %d shards, %d mismatching cases, %d unspecified, %.1fs"
         % (spec, tot.get("events", 0), len(shards), len(mism), len(unspec), time.time() - t0))
     for p, _ in shards:
